@@ -266,7 +266,7 @@ void femm::FemmProblem::updateLabelsFromIndex()
     // block labels
     for (auto &label: labellist)
     {
-        if (label->hasBlockType())
+        if (!label->isHole())
             label->BlockTypeName = blockproplist[label->BlockType]->BlockName;
         if (label->isInCircuit())
             label->InCircuitName = circproplist[label->InCircuit]->CircName;
@@ -294,6 +294,43 @@ void femm::FemmProblem::updateLabelsFromIndex()
             asegm->BoundaryMarkerName = lineproplist[asegm->BoundaryMarker]->BdryName;
         if (asegm->isInConductor())
             asegm->InConductorName = circproplist[asegm->InConductor]->CircName;
+    }
+}
+
+void femm::FemmProblem::updateIndicesFromLabels()
+{
+    updateBlockMap();
+    updateCircuitMap();
+    updateLineMap();
+    updateNodeMap();
+
+    auto indexOf = [](const std::map<std::string, int> &map, const std::string &name) {
+        auto it = map.find(name);
+        return (it == map.end()) ? -1 : it->second;
+    };
+    // block labels
+    for (auto &label: labellist)
+    {
+        label->BlockType = indexOf(blockMap, label->BlockTypeName);
+        label->InCircuit = indexOf(circuitMap, label->InCircuitName);
+    }
+    // points
+    for (auto &node: nodelist)
+    {
+        node->BoundaryMarker = indexOf(nodeMap, node->BoundaryMarkerName);
+        node->InConductor = indexOf(circuitMap, node->InConductorName);
+    }
+    // segments
+    for (auto &segm: linelist)
+    {
+        segm->BoundaryMarker = indexOf(lineMap, segm->BoundaryMarkerName);
+        segm->InConductor = indexOf(circuitMap, segm->InConductorName);
+    }
+    // arc segments
+    for (auto &asegm: arclist)
+    {
+        asegm->BoundaryMarker = indexOf(lineMap, asegm->BoundaryMarkerName);
+        asegm->InConductor = indexOf(circuitMap, asegm->InConductorName);
     }
 }
 
